@@ -335,7 +335,7 @@ PROPS = {
                 "seqboot (1-3 replicates, fraction 1, 1/2, 3/4, with or without -S) twice, the files compared with each "
                 "other and with the model's prediction from the raw tape of the seed and the FASTA writer model; 20%: a "
                 "chain of 2-5 reformat commands through fasta / phylip / nexus / clustal back to the starting format, "
-                "final bytes against the starting file; 17%: reformat phylip (four layouts) and reformat fasta, stdout predicted by the writer models; 8%: build distboot against build seqboot + compute distance "
+                "final bytes against the starting file; 17%: reformat phylip (four layouts), fasta, nexus and clustal, stdout predicted by the writer models; 8%: build distboot against build seqboot + compute distance "
                 "on every replicate, 7 models; non-trivial = every case; distinct = distinct (command, seed, alignment)",
         "nontrivial": lambda m: True,
         "assumptions": [
